@@ -192,6 +192,7 @@ def run(ctx: Ctx) -> int:
                                               for g in h[-1]["st"]["segs"]],
                     "predicted_parameters": [g["p"] for g in h[-1]["st"]["segs"]]})
     c04.trace_direction(ctx, rep, PROP, 500 if ctx.quick else 10000, 6 if ctx.quick else 8, WEIGHTS, "protocols")
+    c04.repo_tests_direction(ctx, rep, only_protocols=True)
     return rep.finish()
 
 
